@@ -145,6 +145,8 @@ struct Ctx {
     name: String,
     pre: Vec<String>,
     post: Vec<String>,
+    /// non-empty: the context applies only to cases in which this token occurs
+    mentions: String,
 }
 
 struct Contexts {
@@ -156,9 +158,10 @@ struct Contexts {
 
 fn load_contexts(dir: &str) -> Contexts {
     let rows = read_ndjson(&format!("{dir}/syntax_contexts.ndjson"));
-    let mut c = Contexts { code: vec![], typ: Ctx { name: String::new(), pre: vec![], post: vec![] }, host_prelude: vec![], tokens: vec![] };
+    let mut c = Contexts { code: vec![], typ: Ctx { name: String::new(), pre: vec![], post: vec![], mentions: String::new() }, host_prelude: vec![], tokens: vec![] };
     for r in rows {
-        let ctx = Ctx { name: r["name"].as_str().unwrap().to_string(), pre: toks(&r["pre"]), post: toks(&r["post"]) };
+        let ctx = Ctx { name: r["name"].as_str().unwrap().to_string(), pre: toks(&r["pre"]), post: toks(&r["post"]),
+                        mentions: r["mentions"].as_str().unwrap_or("").to_string() };
         match ctx.name.as_str() {
             "$host_prelude" => c.host_prelude = ctx.pre,
             "$tokens" => c.tokens = ctx.pre,
@@ -167,7 +170,7 @@ fn load_contexts(dir: &str) -> Contexts {
         }
     }
     c.code.sort_by(|a, b| a.name.cmp(&b.name));
-    assert!(c.code.len() == 4 && !c.host_prelude.is_empty() && !c.tokens.is_empty() && c.typ.name == "type");
+    assert!(c.code.len() >= 4 && !c.host_prelude.is_empty() && !c.tokens.is_empty() && c.typ.name == "type");
     c
 }
 
@@ -193,7 +196,9 @@ fn variants(case: &Value, cx: &Contexts) -> Vec<(String, &'static str, String)> 
     let mut out = vec![];
     let code_ctx = |out: &mut Vec<(String, &'static str, String)>, body: &str, tag: &str| {
         for c in &cx.code {
-            out.push((format!("{}{tag}", c.name), "host", in_ctx(c, body)));
+            if c.mentions.is_empty() || ts.contains(&c.mentions) {
+                out.push((format!("{}{tag}", c.name), "host", in_ctx(c, body)));
+            }
         }
     };
     match suite {
@@ -313,7 +318,7 @@ struct RunResult {
     timeouts: usize,
 }
 
-const WORKERS: usize = 4;
+const WORKERS: usize = 6;
 const MEM_KB: u64 = 10_000_000; // address space limit of a worker (includes the 1 GiB main stack)
 const STALL: Duration = Duration::from_secs(60);
 
